@@ -247,6 +247,9 @@ func genParserTrace(r *RNG, tier string, o ptOpts) *Trace {
 	switch {
 	case x < o.wrapShare:
 		spec.Target = "wrap"
+		if r.Chance(0.12) {
+			spec.PreUse = 1 + r.Intn(minInt(maxInt(bc.BufferSize, 1), 200))
+		}
 		po := pg.plan
 		po.first = -1
 		spec.Plan = genRPlan(r, n, po)
@@ -735,7 +738,9 @@ func init() {
 
 	register(&Prop{ID: "C06",
 		Gen: func(r *RNG, tier string, run int) *Trace {
-			return genDecoderTrace(r, dgen{nOps: 30, sizes: "huge", malformed: 0.1, readBias: 3, resetW: 1, wfaults: r.Chance(0.3), retry: 0.5})
+			// a third of the faulting writers also answers (0, nil) now and then:
+			// C06 only presupposes that the writer returns
+			return genDecoderTrace(r, dgen{nOps: 30, sizes: "huge", malformed: 0.1, readBias: 3, resetW: 1, wfaults: r.Chance(0.3), retry: 0.5, nilWrites: run%3 == 0})
 		},
 		Exec:     execDecoder("C06"),
 		NonTriv:  func(res *Result) bool { return pr(res, "arg_gt_bs_minus_ws", "seq_gt_bs_minus_ws") },
